@@ -1,4 +1,4 @@
-import GoSquare.Properties.C12
+import GoSquare.Proofs.C12Core
 import GoSquare.Proofs.ExportKept
 import GoSquare.Proofs.BlobRange
 /-! # C12 (builder half) — `Builder.FindTxShareRange` is exact
